@@ -262,6 +262,9 @@ class C20(Prop):
             if rng.random() < 0.05:
                 yield self._objects(rng)
                 continue
+            if rng.random() < (0.004 if tier == "quick" else 0.01):
+                yield self._long(rng, tier)
+                continue
             names = list(range(rng.choice([1, 2, 2, 3, 3, 4])))
             # approval set
             aset = []
@@ -423,6 +426,42 @@ class C20(Prop):
                 count += 1
         return {"lines": lines, "note": "scripted gate answers"}
 
+    # counts around the sizes at which a bounded buffer / cache / rotation would plausibly kick in
+    LONG_N = [64, 65, 100, 101, 128, 129, 200, 201, 255, 256, 257, 300, 500, 501, 512, 513]
+    LONG_N_BIG = [999, 1000, 1001, 1023, 1024, 1025, 1500, 2000, 2001, 2048, 2049]
+
+    def _long(self, rng, tier, n=None):
+        """a LONG history on one genome in one `repeat` line: hundreds to thousands of logged attempts (refused ones,
+        approved mutate / rollback pairs, refused rollbacks and re-adds), expression flips, express / stats queries —
+        between an approved mutation and the rollback that must still find it.  Nothing in the property is bounded by the
+        length of the history; every inner call is judged by the oracle like a line of its own."""
+        if n is None:
+            n = rng.choice(self.LONG_N + (self.LONG_N_BIG if tier != "quick" and rng.random() < 0.3 else []))
+        gate = rng.choice(["cb", "cb", "nocb", "allow"])
+        lines = ["adv 0:7,0:1,0:3 -",
+                 {"cb": "new 0 0 0", "nocb": "new 0 none 0", "allow": "new 1 none 0"}[gate]
+                 + f" 0:1:{rng.choice('ssc')}:1:{rng.choice('223')} 1:2:{rng.choice('shc')}:0:2"]
+        pre = rng.choice([["mutate 0 0 7"], ["mutate 0 0 7"], ["mutate 0 0 7", "mutate 0 0 3"], [],
+                          ["setallow 0 1", "mutate 0 0 7", "setallow 0 0"]])
+        lines += pre
+        bodies = {
+            "cb": ["mutate 0 1 5", "mutate 0 1 5 / mutate 0 1 6", "mutate 0 0 9", "mutate 0 0 9 / stats 0",
+                   "rollback 0 1", "add 0 1:9:s:0:2", "mutate 0 1 5 / express 0 1", "mutate 0 1 5 / rollback 0 1",
+                   "mutate 0 0 7 / rollback 0 0", "silence 0 1 / mutate 0 1 5 / activate 0 1"],
+            "nocb": ["mutate 0 1 5", "mutate 0 0 9 / mutate 0 1 6", "add 0 0:9:s:1:2", "mutate 0 1 5 / stats 0",
+                     "rollback 0 0", "silence 0 0 / express 0 - / activate 0 0"],
+            "allow": ["mutate 0 1 5", "mutate 0 1 5 / rollback 0 1", "mutate 0 0 7 / mutate 0 0 1",
+                      "add 0 1:9:s:0:2 / mutate 0 1 5", "mutate 0 1 5 / setallow 0 0 / mutate 0 1 6 / setallow 0 1"],
+        }[gate]
+        body = rng.choice(bodies)
+        k = body.count("/") + 1
+        lines.append(f"repeat {max(1, n // k + rng.choice([0, 1]))} {body}")
+        tail = rng.choice([["rollback 0 0", "stats 0"], ["stats 0", "rollback 0 0", "rollback 0 0"],
+                           ["rollback 0 0", "rollback 0 1", "express 0 1"], ["mutate 0 0 1", "rollback 0 0", "stats 0"],
+                           ["replicate 0 1 0:7", "rollback 0 0", "stats 1"], ["setallow 0 1", "rollback 0 0", "rollback 0 1"]])
+        lines += tail
+        return {"lines": lines, "note": f"long history ({n} calls in one repeat line)"}
+
     def _objects(self, rng):
         """mutable value objects (codes 200..): shared between parent and child by replicate, logged by mutate, handed
         out by get_gene / get_value / express / export — and mutated in place by the caller (`poke`)"""
@@ -457,6 +496,9 @@ class C20(Prop):
                 "replicate 7 1 -", "express 4 -", "adv 1:q -",
                 "setallow 0 2", "setallow 0", "setcb 0 x", "setallow 9 1", "setcb 7 none", "setrate 0 yes", "setrate 0 1",
                 "setcb 0 none", "setallow 0 1", "stats 0", "stats 9", "stats", "poke 0 0 gene", "poke 0 0 attr",
+                "repeat 3 mutate 0 0 5", "repeat 0 mutate 0 0 5", "repeat 2 mutate 0 0 5 /", "repeat 2 / stats 0", "repeat x stats 0",
+                "repeat 2 new 0 0 0", "repeat 2 repeat 2 stats 0", "repeat 9999 stats 0", "repeat 2 mutate 0 0", "repeat 3",
+                "repeat 2 mutate 9 0 1 / stats 0", "repeat 4 rollback 0 0 / mutate 0 0 5",
                 "poke 0 0", "poke 9 0 gene", "poke 0 7 express"]
         lines = ["adv 0:* -", "new 0 0 0 0:1:s:0:2 1:2:c:0:2"]
         for _ in range(rng.randint(2, 6)):
@@ -548,6 +590,30 @@ class C20(Prop):
                                "gene 0 holds a mutable object x 2 gate configurations (open finding "
                                "C20-shared-mutable-value-objects: model = implementation, oracle violations expected)",
                        "cases": cO})
+        # LONG histories (one `repeat` line each): more than 1000 / 2000 logged attempts between an approved mutation and its
+        # rollback, approved mutate / rollback pairs, refused re-adds, expression flips, many children of one parent
+        big = 1030 if tier == "quick" else 2100
+        cL = [
+            ["adv 0:7,0:1 -", "new 0 0 0 0:1:s:1:2 1:2:c:0:3", "mutate 0 0 7", f"repeat {big} mutate 0 1 5", "stats 0",
+             "rollback 0 0", "stats 0"],
+            ["adv - -", "new 1 none 0 0:1:s:1:2 1:2:c:0:3", f"repeat {big // 2} mutate 0 0 7 / rollback 0 0", "stats 0",
+             "setallow 0 0", "mutate 0 0 5", "rollback 0 0", "setallow 0 1", "rollback 0 0"],
+            ["adv 0:7 -", "new 0 0 0 0:1:s:1:2 1:2:c:0:3", "mutate 0 0 7", "repeat 300 add 0 0:9:s:1:2 / mutate 0 1 5 / rollback 0 1",
+             "stats 0", "rollback 0 0"],
+            ["adv - -", "new 0 none 0 0:1:s:1:2 1:2:c:0:3", "repeat 270 silence 0 0 / express 0 1 / activate 0 0 / express 0 1",
+             "getv 0 0", "express 0 -"],
+            ["adv 0:7 -", "new 0 0 0 0:1:s:1:2 1:2:c:0:3", "repeat 40 replicate 0 1 0:7,1:5", "mutate 7 0 1", "rollback 7 0",
+             "stats 39", "express 40 -"],
+            ["adv 0:7,0:1 -", "new 0 0 0 0:1:s:1:2 1:2:c:0:3", "mutate 0 0 7", "repeat 130 mutate 0 0 9 / stats 0 / express 0 -",
+             "rollback 0 0", "repeat 130 rollback 0 0", "stats 0"],
+        ]
+        if tier != "quick":
+            cL.append(["adv 0:7,0:1 -", "new 0 0 0 0:1:s:1:2 1:2:c:0:3", "mutate 0 0 7", "repeat 4200 mutate 0 1 5", "rollback 0 0",
+                       "stats 0"])
+        spaces.append({"name": f"long histories in one repeat line (up to {4200 if tier != 'quick' else big} logged attempts "
+                               "between an approved mutation and its rollback; approved mutate/rollback pairs; refused re-adds; "
+                               "expression flips; 40 children of one parent), every inner call judged by the oracle",
+                       "cases": [{"lines": l_, "note": "long history"} for l_ in cL]})
         if tier != "quick":
             # depth 5 on the operations that interact through the log (approve / refuse / rollback / replicate)
             alpha5 = ["mutate 0 0 7", "mutate 0 0 5", "mutate 0 1 8", "rollback 0 0", "replicate 0 1 0:7",
@@ -561,32 +627,79 @@ class C20(Prop):
         return spaces
 
     # --- implementation ---------------------------------------------------------------------------------
+    NOT_IN_REPEAT = ("adv", "new", "fromdict", "poke", "repeat")
+    REPEAT_MAX = 5000
+
     def run_impl(self, case):
         m = self.m
         w = World()
         _OBJS.clear()
         obs, recs = [], []
-        classes: dict = {}
-
-        last_after = None      # the snapshots taken after the previous line ARE the state before this one
-
+        # `last_after`: the snapshots taken after the previous step ARE the state before this one
+        state = {"classes": {}, "last_after": None}
         for line in case["lines"]:
             t = line.split()
+            if t and t[0] == "repeat":
+                rec, ob = self._repeat(m, w, line, t, state)
+            else:
+                rec, ob = self._one(m, w, line, t, state, True)
+            recs.append(rec)
+            obs.append(ob)
+        return obs, recs
+
+    def _repeat(self, m, w, line, t, state):
+        """`repeat <n> <op> [/ <op>]*`: the operation lines between the `/` tokens, in order, n times over, on the
+        same live objects — a long history in one protocol line.  Every inner call is executed, snapshotted and judged
+        by the oracle exactly like a line of its own (rec["inner"]); the observation is the run-length encoded
+        sequence of results plus the final state."""
+        rec = {"op": "repeat", "line": line}
+        try:
+            n = nat(t[1])
+            bodies, cur = [], []
+            for tok in t[2:]:
+                if tok == "/":
+                    bodies.append(cur)
+                    cur = []
+                else:
+                    cur.append(tok)
+            bodies.append(cur)
+            if not (1 <= n <= self.REPEAT_MAX) or any(not b or b[0] in self.NOT_IN_REPEAT for b in bodies):
+                raise ValueError(line)
+            for b in bodies:
+                if self._parse(m, w, b) is None:
+                    raise ValueError(line)
+        except (ValueError, IndexError, KeyError):
+            return rec, "bad-op"
+        inner, runs = [], []
+        for _ in range(n):
+            for b in bodies:
+                r_, res = self._one(m, w, " ".join(b), b, state, False)
+                inner.append(r_)
+                if runs and runs[-1][0] == res:
+                    runs[-1][1] += 1
+                else:
+                    runs.append([res, 1])
+        rec["inner"] = inner
+        after = state["last_after"] if state["last_after"] is not None else []
+        return rec, ("rep " + "; ".join(f"{o} *{c}" for o, c in runs) + " | "
+                     + " | ".join(show_snap(s_, state["classes"]) for s_ in after))
+
+    def _one(self, m, w, line, t, state, render):
+        """one operation line on the real code: (record for the oracle, observation)"""
+        classes = state["classes"]
+        last_after = state["last_after"]
+        if True:
             rec = {"op": t[0] if t else "", "line": line}
             try:
                 parsed = self._parse(m, w, t)
             except (ValueError, IndexError, KeyError):
                 parsed = None
             if parsed is None:
-                obs.append("bad-op")
-                recs.append(rec)
-                continue
+                return rec, "bad-op"
             kind = parsed[0]
             if kind == "adv":
                 w.advset, w.script = parsed[1], parsed[2]
-                obs.append("ok")
-                recs.append(rec)
-                continue
+                return rec, "ok"
             before = last_after if last_after is not None and len(last_after) == len(w.pool) else [snap(g) for g in w.pool]
             ncalls = len(w.calls)
             res = None
@@ -711,11 +824,15 @@ class C20(Prop):
                 rec["raised"] = type(e).__name__
             rec["res"] = res
             rec["before"] = before
-            rec["after"] = last_after = [snap(g) for g in w.pool]
+            rec["after"] = last_after = state["last_after"] = [snap(g) for g in w.pool]
             rec["calls"] = w.calls[ncalls:]
-            recs.append(rec)
-            obs.append(res + " | " + " | ".join(show_snap(s_, classes) for s_ in last_after))
-        return obs, recs
+            if not render:
+                for s_ in last_after:       # register the hash classes in the order a state line would
+                    for h_ in (s_["hash"], s_["parent_hash"]):
+                        if h_ is not None and h_ not in classes:
+                            classes[h_] = len(classes)
+                return rec, res
+            return rec, res + " | " + " | ".join(show_snap(s_, classes) for s_ in last_after)
 
     def _parse(self, m, w, t):
         if not t:
@@ -780,8 +897,10 @@ class C20(Prop):
         touched = {}       # genome -> genes changed with authorisation, or added fresh, since its birth
         ptouched = {}      # child -> genes of the parent so changed since the child's birth
 
+        cur_rec = [None]
+
         def V(clause, exp, got, idx):
-            if recs[idx].get("op") == "poke":
+            if (cur_rec[0] or recs[idx]).get("op") == "poke":
                 # whatever an in-place mutation of a handed-out object changes in a genome is the aliasing finding
                 clause = "value_object_aliasing"
             out.append(Violation(clause, exp, got, idx))
@@ -789,9 +908,17 @@ class C20(Prop):
         def values(s):
             return {n: g["value"] for n, g in s["genes"].items()}
 
+        # a `repeat` line is judged call by call (its inner records), every violation is reported at the line's index
+        steps = []
         for idx, r in enumerate(recs):
+            if "inner" in r:
+                steps.extend((idx, x) for x in r["inner"])
+            else:
+                steps.append((idx, r))
+        for idx, r in steps:
             if "before" not in r:
                 continue
+            cur_rec[0] = r
             op, before, after, calls = r["op"], r["before"], r["after"], r["calls"]
             raised = "raised" in r
             tgt = r.get("target")
